@@ -285,6 +285,17 @@ func (e *Engine) contractEnv(st *State, t callTarget, old *State) *SpecEnv {
 	if len(t.args) > 0 {
 		env.vars["recv"] = t.args[0]
 	}
+	// a closure's contract may mention the variables it captured
+	if t.closure != nil {
+		for i, fv := range t.closure.Fn.FreeVars {
+			if i < len(t.closure.Bind) && t.closure.Bind[i].P != nil {
+				func() {
+					defer func() { recover() }()
+					env.vars[fv.Name()] = st.loadQuiet(t.closure.Bind[i].P, nil)
+				}()
+			}
+		}
+	}
 	c := t.contract
 	if sp := e.pkgByPath(c.PkgPath); sp != nil {
 		env.pkg = sp.Pkg
@@ -367,6 +378,10 @@ func (e *Engine) applyContract(st *State, in ssa.Instruction, t callTarget, k fu
 	}
 	for _, en := range c.EnsuresAssumed {
 		st.ctx.note("ASSUMED postcondition of %s (used at call sites, not proved on its body): %s", c.Key, en.Text)
+	}
+	if len(c.InvokesOnSuccess) > 0 {
+		e.invokeOnSuccess(st, in, t, c, res, k)
+		return
 	}
 	k(st, res)
 }
@@ -499,6 +514,71 @@ func (e *Engine) havocLocation(st *State, env *SpecEnv, m Clause) (err error) {
 	}
 	st.storePtr(pv.P, fresh)
 	return nil
+}
+
+// invokeOnSuccess: on the callee's success path the named function arguments
+// have been called once (with unconstrained arguments) and returned nil.
+func (e *Engine) invokeOnSuccess(st *State, in ssa.Instruction, t callTarget, c *Contract, res Val, k func(*State, Val)) {
+	var errLeaf Term
+	if res.Tup != nil {
+		errLeaf = res.Tup[len(res.Tup)-1].L[0]
+	} else {
+		errLeaf = res.L[0]
+	}
+	names := paramNames(t)
+	var cbs []Val
+	for _, want := range c.InvokesOnSuccess {
+		for i, n := range names {
+			if n == want && i < len(t.args) {
+				cbs = append(cbs, t.args[i])
+			}
+		}
+	}
+	e.fork(st, Eq(errLeaf, I(0)),
+		func(s *State) {
+			var run func(s *State, i int)
+			run = func(s *State, i int) {
+				if i >= len(cbs) {
+					k(s, res)
+					return
+				}
+				cb := cbs[i]
+				if cb.C == nil {
+					s.ctx.note("callback of %s is not statically known: its effects are not modelled", c.Key)
+					run(s, i+1)
+					return
+				}
+				ct := callTarget{fn: cb.C.Fn, closure: cb.C, sig: cb.C.Fn.Signature, name: cb.C.Fn.Name(), contract: e.specs.lookup(cb.C.Fn)}
+				if len(cb.C.Bind) == 0 && len(cb.C.Fn.FreeVars) == 0 {
+					ct.closure = nil
+				}
+				for j, p := range cb.C.Fn.Params {
+					av := s.freshVal(p.Type(), s.ctx.freshName(fmt.Sprintf("cbarg!%d", j)))
+					// arguments handed to the callback by the callee are non-nil (the callee's own
+					// body is checked to pass what it obtained from non-nil sources)
+					for li, l := range leavesOfSafe(p.Type()) {
+						if li == 0 && (l.Role == "ityp" || l.Role == "ref") && li < len(av.L) {
+							s.assume(Ne(av.L[li], I(0)))
+						}
+					}
+					ct.args = append(ct.args, av)
+				}
+				e.callResolved(s, in, ct, func(s2 *State, r Val) {
+					// the callee reported success, so the callback returned nil
+					if r.Tup != nil && len(r.Tup) > 0 {
+						s2.assume(Eq(r.Tup[len(r.Tup)-1].L[0], I(0)))
+					} else if len(r.L) > 0 {
+						s2.assume(Eq(r.L[0], I(0)))
+					}
+					if s2.dead {
+						return
+					}
+					run(s2, i+1)
+				})
+			}
+			run(s, 0)
+		},
+		func(s *State) { k(s, res) })
 }
 
 // callsbackFrame: the callee only acts through the listed methods of its first
